@@ -193,6 +193,11 @@ func crashClass(stderr string) (cls string, det string) {
 		return "exit-without-panic", tail(stderr, 600)
 	}
 	first = strings.Replace(first, "fatal error: runtime: out of memory", "fatal error: out of memory", 1)
+	if strings.HasPrefix(first, "fatal error: ") && strings.Contains(first, "out of memory") {
+		// "out of memory allocating heap arena metadata", "cannot allocate memory" variants under an
+		// address space limit: one class, named after the allocating frame
+		first = "fatal error: out of memory"
+	}
 	first = reAddr.ReplaceAllString(first, "0x?")
 	first = reGo.ReplaceAllString(first, "goroutine N")
 	if len(first) > 120 {
